@@ -3126,6 +3126,8 @@ void SGXMLScanner::scanReset(const InputSource& src)
     // Reset some status flags
     fInException = false;
     fStandalone = false;
+    // a document without XML declaration is XML 1.0, whatever the previous one was
+    fXMLVersion = XMLReader::XMLV1_0;
     fErrorCount = 0;
     fHasNoDTD = true;
     fSeeXsi = false;
